@@ -496,7 +496,8 @@ def explore(theory, run, stats=None, timeout_ms=10000, seed=0, open_findings=(),
     finished = []
     import os as _os
     import time as _time
-    deadline = _time.time() + float(_os.environ.get("PYVC_JOB_BUDGET_S", "900"))
+    deadline = min(_time.time() + float(_os.environ.get("PYVC_JOB_BUDGET_S", "900")),
+                   float(_os.environ.get("PYVC_CHECK_DEADLINE", "inf")))
     while queue:
         if split_at is not None and stats.paths >= split_at:
             break
